@@ -120,8 +120,8 @@ def step2Comp (q : Quad) (m : SMap (List Quad)) (c : Term × Str) : Except Err (
     | _ => .ok m
 
 /-- the predicate tests at the head of the step-2 loop, following the source through
-`Gen.predicateMustBeIri` (tools/extractors/c06.py): the shipped code only rejects blank node
-predicates; the only other shape the extractor accepts additionally rejects every non-IRI predicate -/
+`Gen.predicateMustBeIri` (tools/extractors/c06.py): originally only blank node predicates were
+rejected (flag `false`); since /repo commit ae95823 every non-IRI predicate is (flag `true`) -/
 def predicateRejected (p : Term) : Bool :=
   isBnode p || (Gen.predicateMustBeIri && !isIri p)
 
@@ -230,8 +230,9 @@ def heapPerms {α : Type} (l : List α) : List (List α) :=
   if l.isEmpty then [] else (heap l.length l).1
 
 /-- `smaller_path`, following the source through `Gen.smallerPathLengthFirst` (regenerated by
-tools/extractors/c06.py): the shipped body compares the lengths first; the only other body the
-extractor accepts is `path1.len() <= path2.len() && path1 < path2`.  (`str::len` is the byte
+tools/extractors/c06.py), which accepts exactly two bodies: the original one, comparing the lengths
+first (flag `true`), and `path1.len() <= path2.len() && path1 < path2` (flag `false`, the skip rule of
+the Recommendation, in /repo since 33fee4b).  (`str::len` is the byte
 length; paths are ASCII — `_:`, `c14nN`/`bN`, `<`, hex, `>` — so it is the number of characters.) -/
 def smallerPath (p1 p2 : Str) : Bool :=
   if Gen.smallerPathLengthFirst then
